@@ -2101,3 +2101,30 @@ async fn d51_equal_timestamps_collide_in_the_version_index() {
 	}
 	assert_eq!(seen[0], seen[1], "D51: the two back ends disagree");
 }
+
+// D52: a transaction larger than the memtable arena fails in apply (CommitFail) AFTER its record was made durable.  When
+// that record is the first one of its WAL segment, every later open fails with `Batch too large for memtable`: the store
+// cannot reopen the directory it wrote.  (Replay already retries a segment that does not fit with a doubled arena --
+// except in this one case, where the memtable is still empty.)
+#[tokio::test(flavor = "multi_thread")]
+async fn d52_oversized_first_record_makes_the_store_unopenable() {
+	let d = td();
+	let opts = mk_opts(d.path().to_path_buf(), |o| {
+		o.max_memtable_size = 4096;
+		o.flush_on_close = false;
+	});
+	{
+		let tree = Tree::new(Arc::clone(&opts)).unwrap();
+		let mut tx = tree.begin().unwrap();
+		tx.set(b"big", &vec![b'x'; 10_000]).unwrap();
+		let r = tx.commit().await;
+		println!("D52 oversized commit -> {:?}", r.as_ref().map_err(|e| e.to_string()));
+		let _ = tokio::time::timeout(std::time::Duration::from_secs(10), tree.close()).await;
+	}
+	let r = Tree::new(Arc::clone(&opts));
+	println!("D52 reopen -> {:?}", r.as_ref().map(|_| ()).map_err(|e| e.to_string()));
+	assert!(r.is_ok(), "D52: the store cannot reopen its own directory: {:?}", r.err().map(|e| e.to_string()));
+	let t = r.unwrap();
+	tokio::time::timeout(std::time::Duration::from_secs(10), put(&t, b"small", b"v")).await.expect("D52: a small commit after the reopen timed out");
+	let _ = tokio::time::timeout(std::time::Duration::from_secs(10), t.close()).await;
+}
